@@ -3,7 +3,8 @@
 import sys, json, os, shutil
 id_, breaks, needs, det, sigs = sys.argv[1:6]
 strength = len(sys.argv) > 6 and sys.argv[6] == "strengthened"
-src = f"/tmp/seed-{id_}-out"; dst = f"/verif/seeded/{id_}"
+R=os.environ.get("SEED_ROUND","")
+src = f"/tmp/seed{R}-{id_}-out"; dst = f"/verif/seeded/{id_}" + (f"-{R}" if R else "")
 if os.path.exists(dst): shutil.rmtree(dst)
 os.makedirs(dst)
 shutil.copy(f"{src}/patch.diff", dst); shutil.copy(f"{src}/notes.md", dst)
